@@ -267,6 +267,21 @@ pub async fn run_case(c: Case) -> Result<CaseInfo, Failure> {
             ));
         }
     }
+    // (3b) a valid DISCONNECT of the peer as the only initiator: the endpoint has received it, whatever it makes of it,
+    // so nothing but the report of a protocol error in that very packet may follow (non-zero expiry against CONNECT expiry 0)
+    if c.inits.len() == 1 {
+        if let (Some(init @ (Init::PeerDisconnect(_) | Init::PeerDisconnectHeld)), Some((_, d))) = (peer_disc_sent, ours.first()) {
+            // invalid: a non-zero expiry against CONNECT expiry 0 [MQTT-3.14.2-2]; any expiry in a DISCONNECT sent by a server
+            let invalid = if c.role.is_server() { matches!(init, Init::PeerDisconnect(2)) && !c.connect_expiry } else { matches!(init, Init::PeerDisconnect(1 | 2)) };
+            if !invalid {
+                return Err(Failure::new(
+                    "disconnect-after-peers",
+                    format!("C15/{}/disconnect-after-peers", c.role.name()),
+                    format!("DISCONNECT({:#x}) was written in answer to a valid DISCONNECT of the peer (CONNECT session expiry {:?}, CONNACK session expiry {:?}); {}", d.reason, c.connect_expiry.then_some(60), c.connack_expiry, describe()),
+                ));
+            }
+        }
+    }
     // (4) an error cause that comes first, with no packet from the application, is named
     let first = c.inits[0];
     let app_packet = matches!(c.stop, StopAnswer::Own(_));
